@@ -910,6 +910,9 @@ func (e *engine) sessionCase(k *kase) {
 			st := pl.Steps[max(step, 0)]
 			kk.What = fmt.Sprintf("%s%s/junk=%s/step%d(%s)", tag, pl.Name, pl.F, step, st.F)
 			switch {
+			case step < 0:
+				kk.What = fmt.Sprintf("%s%s/junk=%s/%s", tag, pl.Name, pl.F, strings.SplitN(obs, ":", 2)[0])
+				want = "conforms"
 			case st.F == "none" && want == "ok" && obs == "dup":
 				kk.What = tag + "genuine-unit-rejected-as-duplicate-after-a-rejected-unit/junk=" + pl.F
 			case st.F == "none" && want == "ok" && step >= 0 && obs != "panic":
@@ -1003,8 +1006,8 @@ func (e *engine) newSchedCase(k *kase) {
 		peers = peers[1:2]
 	case "empty":
 		peers = nil
-	case "duplicate":
-		peers = append(peers, peers[2])
+	case "duplicate": // every position: the duplicates end up first, in the middle or last after sorting
+		peers = append(peers, peers[k.Mask%len(peers)])
 	case "localmissing":
 		local = pid(e.w.key("outsider"))
 	default:
@@ -1284,7 +1287,11 @@ func (e *engine) enumerate(in *input, emit func(kase)) {
 		}
 		for kind, v := range fix.NewSched {
 			if ti == 0 {
-				emit(kase{Kind: "newsched", F: kind, What: kind, Fix: v, Cur: cur.NewSched[kind]})
+				for m := 0; m < 4; m++ {
+					if m == 0 || kind == "duplicate" {
+						emit(kase{Kind: "newsched", F: kind, Mask: m, What: kind, Fix: v, Cur: cur.NewSched[kind]})
+					}
+				}
 			}
 		}
 		for i := range fix.Val {
